@@ -33,7 +33,8 @@ META = {
         "plus structural rules on the substitution and scanning loops. "
         "Decides the growth class of matching time, not its constant."
         ' Also: reduce_whitespace repeats its substitutions until stable whenever they feed each other (decided on the constant patterns), fix-point loops compare one pass with the next (tri-state), scan cursors advance on every path (path-sensitive).'
-        ' Round 8: every return of plss_preprocess went through reduce_whitespace.'),
+        ' Round 8: every return of plss_preprocess went through reduce_whitespace.'
+        ' Round 9: pass_back_halves makes progress (no oscillating fix point).'),
     'assumptions': [
         "sre is a backtracking matcher whose work is bounded by the number of "
         "distinct paths of the position automaton on the input",
